@@ -220,10 +220,18 @@ impl MsbWriter {
             }
         }
     }
+    /// `bit`: 0 or 1 = constant fill; 2 = alternating 1, 0, 1, ... ; 3 = alternating 0, 1, 0, ...
     fn align(&mut self, bit: u8) {
+        let mut k = 0u8;
         while self.n != 0 {
-            self.pad_bits.push(bit);
-            self.put(bit as u32, 1);
+            let b = match bit {
+                0 | 1 => bit,
+                2 => (k + 1) % 2,
+                _ => k % 2,
+            };
+            k += 1;
+            self.pad_bits.push(b);
+            self.put(b as u32, 1);
         }
     }
 }
